@@ -711,3 +711,103 @@ func init() {
 	intrinsics["(*encoding/base64.Encoding).DecodeString"] = intrB64DecodeFn
 	intrinsics["(*encoding/base64.Encoding).EncodeToString"] = intrB64EncodeFn
 }
+
+// ---- exact Split / SplitN with a one-byte separator on sequences of concrete length ----
+//
+// Every position is decided (separator or not) from constants, or by the solver under the path condition; when a
+// position needed for the result stays undecided the model declines and the older (abstract) treatment applies.
+
+func intrSplitExact(withN bool, old intrinsic) intrinsic {
+	return func(e *Exec, st *State, fr *Frame, args []Val, in ssa.Instruction, rt types.Type) []callRes {
+		if rs := e.splitExact(st, args, withN, rt); rs != nil {
+			return rs
+		}
+		if old != nil {
+			return old(e, st, fr, args, in, rt)
+		}
+		return nil
+	}
+}
+
+func (e *Exec) splitExact(st *State, args []Val, withN bool, rt types.Type) []callRes {
+	if e.IntMode || st.Record != nil {
+		return nil
+	}
+	c := e.C
+	sepB, ok := e.bytesOf(st, args[1])
+	if !ok || len(sepB) != 1 || !sepB[0].IsConst() {
+		return nil
+	}
+	limit := -1
+	if withN {
+		n, ok := args[2].(*Term)
+		if !ok || !n.IsConst() {
+			return nil
+		}
+		limit = int(n.SInt().Int64())
+		if limit == 0 {
+			return nil
+		}
+	}
+	bs, ok := e.bytesOf(st, args[0])
+	if !ok || len(bs) > 512 {
+		return nil
+	}
+	if sv, isStr := args[0].(*StringVal); isStr && sv.Tag != nil && !withN {
+		return nil // tagged strings have their own treatment in Split
+	}
+	var cuts []int
+	for i, b := range bs {
+		if limit > 0 && len(cuts) == limit-1 {
+			break
+		}
+		eq := c.Eq(b, sepB[0])
+		switch {
+		case eq.IsTrue():
+			cuts = append(cuts, i)
+		case eq.IsFalse():
+		default:
+			if e.quickValid(st, c.Not(eq)) {
+				continue
+			}
+			if e.quickValid(st, eq) {
+				cuts = append(cuts, i)
+				continue
+			}
+			return nil
+		}
+	}
+	elem := rt.Underlying().(*types.Slice).Elem()
+	var parts []Val
+	start := 0
+	mk := func(a, b int) Val {
+		switch x := args[0].(type) {
+		case *StringVal:
+			return &StringVal{C: x.C, Off: c.Add(x.Off, e.idx(int64(a))), Len: e.idx(int64(b - a))}
+		case *SliceVal:
+			return &SliceVal{Obj: x.Obj, Path: x.Path, Off: c.Add(x.Off, e.idx(int64(a))), Len: e.idx(int64(b - a)), Cap: e.idx(int64(b - a)), Nil: c.False(), ElemT: x.ElemT}
+		}
+		return nil
+	}
+	for _, k := range cuts {
+		parts = append(parts, mk(start, k))
+		start = k + 1
+	}
+	parts = append(parts, mk(start, len(bs)))
+	for _, p := range parts {
+		if p == nil {
+			return nil
+		}
+	}
+	n := e.idx(int64(len(parts)))
+	id := e.newObj(st, &ArrayVal{ElemT: elem, Len: n, List: parts}, &ObjMeta{T: types.NewArray(elem, int64(len(parts))), Fresh: true})
+	return []callRes{{st, &SliceVal{Obj: id, Off: e.idx(0), Len: n, Cap: n, Nil: c.False(), ElemT: elem}}}
+}
+
+func init() {
+	intrinsics["bytes.SplitN"] = intrSplitExact(true, nil)
+	declining["bytes.SplitN"] = true
+	intrinsics["strings.SplitN"] = intrSplitExact(true, intrSplitN)
+	oldSplit := intrSplit
+	intrinsics["bytes.Split"] = intrSplitExact(false, oldSplit)
+}
